@@ -182,9 +182,10 @@ func runC07exec(t *testing.T, data []byte, c c07cfg, sched kit.SchedCfg, tape *k
 	return
 }
 
-func genXML(t *kit.Tape, n int) ([]byte, []osm.ObjectID) {
+func genXML(t *kit.Tape, n int) ([]byte, []osm.ObjectID, []int) {
 	var sb strings.Builder
 	var ids []osm.ObjectID
+	var ends []int // offset just after each element
 	sb.WriteString("<?xml version=\"1.0\" encoding=\"UTF-8\"?>\n<osm version=\"0.6\" generator=\"verif\">\n")
 	id := int64(0)
 	// a few long runs of tokens that are not objects (comments, unknown elements, whitespace): a single Scan
@@ -208,6 +209,7 @@ func genXML(t *kit.Tape, n int) ([]byte, []osm.ObjectID) {
 			}
 			sb.WriteString("</node>\n")
 			ids = append(ids, (&osm.Node{ID: osm.NodeID(id)}).ObjectID())
+			ends = append(ends, sb.Len())
 		case 1:
 			fmt.Fprintf(&sb, " <way id=\"%d\" version=\"%d\">", id, 1+t.Draw(4))
 			for k := 2 + t.Draw(6); k > 0; k-- {
@@ -215,6 +217,7 @@ func genXML(t *kit.Tape, n int) ([]byte, []osm.ObjectID) {
 			}
 			sb.WriteString("<tag k=\"highway\" v=\"residential\"/></way>\n")
 			ids = append(ids, (&osm.Way{ID: osm.WayID(id)}).ObjectID())
+			ends = append(ends, sb.Len())
 		default:
 			fmt.Fprintf(&sb, " <relation id=\"%d\" version=\"%d\">", id, 1+t.Draw(4))
 			for k := t.Draw(4); k > 0; k-- {
@@ -222,10 +225,11 @@ func genXML(t *kit.Tape, n int) ([]byte, []osm.ObjectID) {
 			}
 			sb.WriteString("</relation>\n")
 			ids = append(ids, (&osm.Relation{ID: osm.RelationID(id)}).ObjectID())
+			ends = append(ends, sb.Len())
 		}
 	}
 	sb.WriteString("</osm>\n")
-	return []byte(sb.String()), ids
+	return []byte(sb.String()), ids, ends
 }
 
 // versionless strips the version bits of an object id so that model and delivered ids compare by kind and ref.
@@ -241,14 +245,23 @@ func runC07(t *testing.T, r *kit.Run) {
 	var data []byte
 	var model []string
 	var blocks []pbfwire.BlockModel
+	xmlCut := false
 	kind := "pbf"
 	if c.xml {
 		kind = "xml"
 		n := 300 + tp.Draw(300)
 		var ids []osm.ObjectID
-		data, ids = genXML(tp, n)
+		var ends []int
+		data, ids, ends = genXML(tp, n)
 		for _, id := range ids {
 			model = append(model, versionless(id))
+		}
+		// 1 XML history in 6 is cut inside an element: the scan ends there with a syntax error recorded before the stop
+		if tp.Chance(1, 6) {
+			i := 1 + tp.Draw(len(ends)/3)
+			data = data[:ends[i]-3]
+			model = model[:i]
+			xmlCut = true
 		}
 	} else {
 		f := pbfwire.Gen(tp, pbfwire.Opts{MinBlocks: 40, MaxBlocks: 80, MaxGroups: 2, MinElems: 10, MaxElems: 30, Procs: c.procs, HeaderlessOneIn: 4})
@@ -261,6 +274,12 @@ func runC07(t *testing.T, r *kit.Run) {
 	// 1 PBF history in 6 has a damaged block: the scan must stop there with an error, and that error,
 	// recorded earlier, must still be what Err reports after the stop
 	damaged := ""
+	if xmlCut {
+		damaged = "xml-document-cut-inside-an-element"
+		if c.mode == 2 {
+			c.mode = tp.Draw(2)
+		}
+	}
 	if !c.xml && len(blocks) > 6 && tp.Chance(1, 6) {
 		dm := damages()
 		var usable []damage
